@@ -140,4 +140,19 @@ theorem chargeOf_exact (price n : Nat) (hp : price < 2 ^ 53) (hs : n * chunkSize
         omega
       rw [if_pos this]
 
+/-- the price of a zero increment is zero (whenever the conversion is defined at all). -/
+theorem chargeOf_zero (price v : Nat) (h : chargeOf price 0 = some v) : v = 0 := by
+  unfold chargeOf at h
+  have hs : sizeRead 0 = F64.zero := by decide +kernel
+  rw [hs] at h
+  unfold F64.ofNat at h
+  rw [F64.roundDiv_eq] at h
+  split at h
+  · simp [F64.mul, F64.zero, F64.toNatTrunc] at h
+  · simp only [F64.mul, F64.zero, Nat.mul_zero, Nat.zero_mul, Bool.bne_false] at h
+    rw [F64.roundDiv_zero _ (F64.p2 _)] at h
+    simp [F64.toNatTrunc, F64.zero] at h
+    exact h.symm
+
+
 end ZChain.ReadMarker
